@@ -19,14 +19,30 @@ func init() {
 		Assumptions: []string{"ids are disjoint from every value pool, so a hit is a trace of the entity", "under CascadeCreateUpdate dangling boss references are declared behaviour and excluded"},
 		Plan: func(tier core.Tier, seed int64) int {
 			if tier == core.Thorough {
-				return 48000 + c06SibCases*20
+				return 48000 + c06SibCases*20 + 48*10 + c06RcCases*10
 			}
-			return 720 + c06SibCases
+			return 720 + c06SibCases + 48 + c06RcCases
 		},
 		Run: func(c *core.Ctx, idx int) {
 			nHist := 720
 			if c.Tier == core.Thorough {
 				nHist = 48000
+			}
+			nSib := c06SibCases
+			if c.Tier == core.Thorough {
+				nSib *= 20
+			}
+			nSelf := 48
+			if c.Tier == core.Thorough {
+				nSelf *= 10
+			}
+			if idx >= nHist+nSib+nSelf {
+				c06RcOnly(c, idx-nHist-nSib-nSelf)
+				return
+			}
+			if idx >= nHist+nSib {
+				selfFkScenario(c, idx-nHist-nSib, "C06") // a store whose fk index points at itself
+				return
 			}
 			if idx >= nHist {
 				c06Siblings(c, idx-nHist)
@@ -150,7 +166,7 @@ func init() {
 				"sibling": {"data in both child stores"}, "sibling_delete": {"parent+A+B through parent", "parent+A+B through childA", "parent+A+B through childB", "parent+A through childA", "parent through parent"}}
 		},
 		MinCounters: func(core.Tier) map[string]int64 {
-			return map[string]int64{"deletes_scanned": 200, "recreated": 50, "sibling_deletes_scanned": 100}
+			return map[string]int64{"deletes_scanned": 200, "recreated": 50, "sibling_deletes_scanned": 100, "self_fk_deletes_scanned": 50, "rc_only_deletes_scanned": 20}
 		},
 	})
 }
